@@ -381,3 +381,80 @@ func init() {
 		return fr.i.jsonMarshal(fr, args[0].(iface))
 	}
 }
+
+// jsonDecodeInto implements the tiny part of encoding/json decoding gopki
+// needs at init time (duration.json -> struct{Pattern string}): a concrete
+// JSON object is decoded by the host and copied into the string / bool /
+// integer fields of the target struct by (case-insensitive) field name.
+func (i *interpreter) jsonDecodeInto(text string, target iface) value {
+	pt, ok := target.t.Underlying().(*types.Pointer)
+	if !ok || target.v.(*value) == nil {
+		return i.errorFromString("json: Unmarshal(non-pointer)")
+	}
+	st, ok := pt.Elem().Underlying().(*types.Struct)
+	if !ok {
+		panic(unsupported("json decode into " + target.t.String()))
+	}
+	var m map[string]any
+	if err := json.Unmarshal([]byte(text), &m); err != nil {
+		return i.errorFromString(err.Error())
+	}
+	s := (*target.v.(*value)).(structure)
+	for k := 0; k < st.NumFields(); k++ {
+		f := st.Field(k)
+		name := f.Name()
+		if tag, ok := reflect.StructTag(st.Tag(k)).Lookup("json"); ok {
+			if n, _, _ := strings.Cut(tag, ","); n != "" {
+				name = n
+			}
+		}
+		for mk, mv := range m {
+			if !strings.EqualFold(mk, name) {
+				continue
+			}
+			switch b := f.Type().Underlying().(type) {
+			case *types.Basic:
+				switch {
+				case b.Kind() == types.String:
+					if sv, ok := mv.(string); ok {
+						s[k] = sv
+					}
+				case b.Kind() == types.Bool:
+					if bv, ok := mv.(bool); ok {
+						s[k] = bv
+					}
+				case b.Info()&types.IsInteger != 0:
+					if fv, ok := mv.(float64); ok {
+						s[k] = mkInt(b.Kind(), uint64(int64(fv)))
+					}
+				}
+			default:
+				panic(unsupported("json decode into field of type " + f.Type().String()))
+			}
+		}
+	}
+	return iface{}
+}
+
+func init() {
+	stubs["(*encoding/json.Decoder).Decode"] = func(fr *frame, args []value) value {
+		i := fr.i
+		dec := (*args[0].(*value)).(structure)
+		r := dec[0].(iface) // Decoder.r io.Reader
+		rp, ok := r.v.(*value)
+		if !ok || rp == nil || !strings.HasSuffix(r.t.String(), "strings.Reader") {
+			panic(unsupported("json.Decoder over " + fmt.Sprint(r.t)))
+		}
+		text, ok := (*rp).(structure)[0].(string)
+		if !ok {
+			panic(unsupported("json.Decoder over symbolic text"))
+		}
+		return i.jsonDecodeInto(text, args[1].(iface))
+	}
+	stubs[ModulePath+"/generator/config/v1.compileSchema"] = func(fr *frame, args []value) value {
+		// JSON-schema compilation and validation are outside every claim; the
+		// harnesses start behind ParseConfiguration
+		v := zero(mustDeref(fr.fn.Signature.Results().At(0).Type()))
+		return tuple{&v, iface{}}
+	}
+}
